@@ -54,11 +54,16 @@ def sparql_part(rep, wd, tier, seed):
                 # the history up to the event (for the replay file)
                 idx = int(m.group(1)) - 1
                 start = max(i for i in range(idx + 1) if chunks[k][i]["a"] == "reset")
-                hist = [x["text"] for x in chunks[k][start + 1: idx] if x["a"] in ("insert", "delete")]
+                hist = [x["text"] for x in chunks[k][start + 1: idx] if x["a"] in ("insert", "delete", "update", "delwhere", "clear")]
                 bad[(what, cls)].append((e, hist))
     for (what, cls), lst in sorted(bad.items()):
-        lst.sort(key=lambda x: len(x[0].get("text", "")))
+        lst.sort(key=lambda x: (len(x[1]), len(x[1][-1]) if x[1] else 0) if what == "data_set" else len(x[0].get("text", "")))
         e, hist = lst[0]
+        if what == "data_set":
+            rep.violation(f"SPARQL update: after {len(lst)} updates the data set read back differs from SparqlSem.tla (Update / DeleteWhere); shortest history ends with: "
+                          f"{(hist[-1] if hist else '')[:300]} -> data set {json.dumps(e.get('rows'))[:300]}",
+                          {"what": what, "updates_before": hist, "query": e.get("text"), "rows": e.get("rows"), "count": len(lst)}, tag="sparql")
+            continue
         fid = {("J",): "SparqlJoinOverUnboundVariable", ("F",): "SparqlOptionalFilterScope", ("F", "J"): "SparqlJoinOverUnboundVariable"}.get(cls)
         if what == "values_ignored" and "SparqlValuesIgnored" in known:
             rep.known("SparqlValuesIgnored", known["SparqlValuesIgnored"]["what_fails"] + f" [{len(lst)} queries, e.g. {e.get('text', '')[:160]}]")
